@@ -161,3 +161,107 @@ def run_leg(rep, model, seed, tier, mode, replay_text=None):
             print("replay loader leg: %s %s" % (r["kind"], r.get("desc", "model and real loader agree")))
     rep.cov["loader_record_level"] = dict(mode=mode, cases=len(jobs), seconds=round(time.time() - t0, 1), distribution=dict(stats))
     rep.obligation("correspondence:loader-model(%s)" % mode, len(rep.corr) == ncorr0, "%d disagreement(s)" % (len(rep.corr) - ncorr0))
+
+
+# ------------------------------------------------------------------ C15: refresh at record level
+
+N_REFRESH = {"quick": 60, "thorough": 600}
+REFRESH_NAMES = ["all", "schedules", "scenarios,schedules", "schedules,scenarios", "all,schedules"]
+
+
+def _second_timetable(rng, d):
+    """a copy of d with another timetable: trips removed, shifted, re-timed, one added; for the `all` / scenarios cases also other scenario lists"""
+    import copy
+    d1 = copy.deepcopy(d)
+    trips = []
+    nid = max([t[2] for t in d["trips"]] + [0]) + 1
+    for t in d["trips"]:
+        r = rng.random()
+        if r < 0.2 and len(d["trips"]) > 1: continue
+        p, sv, tid, arr, dep, cb, cu = t
+        if r < 0.7:
+            k = rng.choice([-120, 60, 420, 3600])
+            arr = [max(0, x + k) for x in arr]; dep = [max(0, x + k) for x in dep]
+        if r > 0.85:
+            tid = nid; nid += 1
+        trips.append((p, sv if rng.random() < 0.8 else rng.randrange(d["nsv"]), tid, arr, dep, list(cb), list(cu)))
+    if not trips: trips = list(d["trips"])
+    d1["trips"] = trips
+    return d1
+
+
+def refresh_case(tools, wd, did, text0, text1, names):
+    cachegen, decode, loader, model = tools
+    d = os.path.join(wd, "rf-" + did + "-" + names.replace(",", "_"))
+    os.makedirs(d, exist_ok=True)
+    replay = "#!refresh names=%s\n%s#!second\n%s" % (names, text0, text1)
+    try:
+        for i, text in ((0, text0), (1, text1)):
+            open(os.path.join(d, "ds%d.txt" % i), "w").write(text)
+            rc, so, se = _run([cachegen, os.path.join(d, "ds%d.txt" % i), os.path.join(d, "c%d" % i)])
+            if rc != 0: return dict(kind="skip", desc="cachegen: " + se[-200:])
+            rc, rec, se = _run([decode, os.path.join(d, "c%d" % i)])
+            if rc != 0: return dict(kind="corr", sig="decode", desc="decode failed: " + se[-200:], replay=replay)
+            open(os.path.join(d, "r%d.txt" % i), "w").write(rec)
+        rc_i, impl, err_i = _run([loader, os.path.join(d, "c0"), "--update", names, "../c1"])
+        rc_f, fresh, err_f = _run([loader, os.path.join(d, "c1")])
+        rc_m, mod, err_m = _run([model, "--load", os.path.join(d, "r0.txt"), "--update", names, os.path.join(d, "r1.txt")])
+        if rc_m != 0: return dict(kind="corr", sig="model-driver", desc="trmodel --load --update failed: " + err_m[-300:], replay=replay)
+        if rc_i != 0:
+            return dict(kind="direct", sig="crash-after-refresh-inproc", desc="TransitData died in the update calls of `names=%s` (rc=%d): %s" % (names, rc_i, err_i[-500:].replace("\n", " | ")), replay=replay)
+        it, mt, ft = _tidy(impl), _tidy(mod), _tidy(fresh)
+        if it != mt:
+            diff = next(((a, b) for a, b in zip(it, mt) if a != b), ("<len %d>" % len(it), "<len %d>" % len(mt)))
+            return dict(kind="corr", sig="refresh-model", desc="tables after `names=%s` differ from the Lean loader model: impl `%s` model `%s`" % (names, str(diff[0])[:150], str(diff[1])[:150]), replay=replay)
+        if rc_f == 0 and it != ft:
+            diff = next(((a, b) for a, b in zip(it, ft) if a != b), ("<len %d>" % len(it), "<len %d>" % len(ft)))
+            return dict(kind="direct", sig="refreshed-tables-differ-from-fresh", desc="tables after `names=%s` differ from those of a fresh TransitData on the new files: refreshed `%s` fresh `%s`" % (
+                names, str(diff[0])[:150], str(diff[1])[:150]), replay=replay)
+        return dict(kind="ok", nontrivial=hash((text0, text1, names)))
+    finally:
+        shutil.rmtree(d, ignore_errors=True)
+
+
+def run_refresh_leg(rep, model, seed, tier, replay_text=None):
+    """C15 at record level: real TransitData::update* on a loaded TransitData vs the Lean `updateNames` vs a fresh TransitData"""
+    cachegen = core.harness_phase(rep, "cachegen", "plain")
+    decode = core.harness_phase(rep, "decode", "plain")
+    loader = core.harness_phase(rep, "loader", "asan")
+    if not (cachegen and decode and loader and model): return
+    tools = (cachegen, decode, loader, model)
+    wd = engine.workdir()
+    jobs = []
+    if replay_text is not None:
+        head = replay_text.splitlines()[0]
+        names = head.split("names=")[1].strip()
+        a, b = replay_text.split("#!second\n", 1)
+        jobs.append(("replay", "\n".join(l for l in a.splitlines() if not l.startswith("#")) + "\n", b, names))
+    else:
+        n = N_REFRESH["thorough" if tier == "thorough" else "quick"]
+        k = 0
+        while len(jobs) < n and k < 4 * n:
+            k += 1
+            rng = random.Random(seed * 9000011 + k)
+            try: d = gen.gen_dataset(rng, rng.choice(["dense", "sparse", "xfer", "overlap", "parallel", "ties"]))
+            except Exception: continue
+            if any(not (-32768 <= t <= 32767 and -32768 <= x <= 32767) for a_, b_, t, x in d["foot"]): continue
+            d1 = _second_timetable(rng, d)
+            names = rng.choice(REFRESH_NAMES)
+            if "scenarios" in names or "all" in names:
+                if rng.random() < 0.5 and len(d1["scenarios"]) > 0 and len(d1["lines"]) > 1:
+                    d1["scenarios"][0] = dict(d1["scenarios"][0], exceptLines=[rng.randrange(len(d1["lines"]))])
+            did = "RF%d-%d" % (seed, len(jobs))
+            jobs.append((did, gen.write_dataset(d, did, []), gen.write_dataset(d1, did, []), names))
+    stats = collections.Counter()
+    n0 = len(rep.corr)
+    with ThreadPoolExecutor(max_workers=engine.JOBS) as ex:
+        results = list(ex.map(lambda j: refresh_case(tools, wd, j[0], j[1], j[2], j[3]), jobs))
+    for (did, t0, t1, names), r in zip(jobs, results):
+        if r["kind"] == "skip": stats["skipped"] += 1; continue
+        rep.evaluations += 1; stats["refresh " + names] += 1
+        if r["kind"] == "corr": rep.corr.append(("loader:" + r["sig"], r["desc"], r["replay"]))
+        elif r["kind"] == "direct": rep.direct.append((r["sig"], r["desc"], r["replay"]))
+        else: rep.nontrivial.add(r["nontrivial"])
+        if replay_text is not None: print("replay refresh leg: %s %s" % (r["kind"], r.get("desc", "model, refreshed and fresh tables agree")))
+    rep.cov["refresh_record_level"] = dict(cases=len(jobs), distribution=dict(stats))
+    rep.obligation("correspondence:loader-model(refresh)", len(rep.corr) == n0, "%d disagreement(s)" % (len(rep.corr) - n0))
